@@ -46,10 +46,10 @@ STREAMS = {
 P = "OpfVerif.Props."
 PROPS = {
     # fit line segments: 0 proto, 1 cost, 2 pred, 3 assigned label, 4 true label, 5 order, 6 drained, 7 predictions, 8 relevant
-    "C01": {"modules": [P + "C01", P + "C01Exec"], "streams": ["fit", "learn"],
+    "C01": {"modules": [P + "C01", P + "C01Exec"], "streams": ["fit", "learn"], "min_classes": 2,
             "relevant": {"fit": [1, 2, 3, 5, 6], "lawfit": None}},
     "C02": {"modules": [P + "C02", P + "C02Exec", P + "C02Weight", P + "C02WeightGraph"], "streams": ["prim", "fit", "semi"],
-            "relevant": {"prim": None, "fit": [0]}},
+            "relevant": {"prim": None, "lawprim": None, "fit": [0]}},
     "C03": {"modules": [P + "C03", P + "C03Fit"], "streams": ["fit", "semi"], "relevant": {"predict": [0]}},
     "C04": {"modules": [P + "C04", P + "C13"], "streams": ["fit", "cluster", "select"],
             "relevant": {"fit": [3], "cluster": [4]}},
@@ -57,7 +57,7 @@ PROPS = {
     "C06": {"modules": [P + "C06", P + "C06b", P + "C06Models"], "streams": ["dist"]},
     "C07": {"modules": [P + "C07"], "streams": ["dist", "fit", "select", "knn"], "relevant": {"dist": None}},
     "C09": {"modules": [P + "C09"], "streams": ["fit", "semi", "knnpred"], "relevant": {"predict": [0], "knnq": None}},
-    "C15": {"modules": [P + "C15"], "streams": ["semi"], "relevant": {"fit": [0, 1, 2, 3, 4, 5, 6], "lawfit": None}},
+    "C15": {"modules": [P + "C15"], "streams": ["semi"], "min_classes": 2, "relevant": {"fit": [0, 1, 2, 3, 4, 5, 6], "lawfit": None}},
     "C16": {"modules": [P + "C16", P + "C16Cut", P + "C16Pipeline"], "streams": ["select"], "relevant": {"selmax": None, "selcut": None, "ncut": None, "unsfit": None, "knnfit": None}},
     "C10": {"modules": [P + "C10"], "streams": ["precomp", "fit"], "relevant": {"fit": [0, 1, 2, 3, 5], "predict": [0]}},
     "C11": {"modules": [P + "C11Map", P + "C11Family", P + "C11Perm", P + "C11Registry"], "streams": ["c11", "fit"], "relevant": {"fit": [0, 1, 2, 3, 5], "predict": [0]}},
@@ -66,9 +66,9 @@ PROPS = {
     "C19": {"modules": [P + "C19"], "streams": ["persist"]},
     "C20": {"modules": [P + "C20"], "streams": ["measures"]},
     "C12": {"modules": [P + "C12Arcs", P + "C12Pdf"], "streams": ["knn"]},
-    "C13": {"modules": [P + "C13"], "streams": ["cluster"]},
+    "C13": {"modules": [P + "C13", P + "C13Rel"], "streams": ["cluster"]},
     "C14": {"modules": [P + "C14", P + "C12Pdf"], "streams": ["knnpred"]},
-    "C08": {"modules": [P + "C08", P + "C08Symm", P + "C08Self", P + "C08Metric", P + "C08Nonneg"], "streams": ["dist"]},
+    "C08": {"modules": [P + "C08", P + "C08Symm", P + "C08Self", P + "C08Metric", P + "C08Nonneg", P + "C08Defined"], "streams": ["dist"]},
 }
 
 def run_streams(pid, cfg, tier, seed, extra_round=0):
@@ -119,6 +119,9 @@ def _relevant(cfg, disag):
         return disag
     out = []
     for d in disag:
+        m = d.get("meta") if isinstance(d.get("meta"), dict) else {}
+        if cfg.get("min_classes") and m.get("classes") is not None and m["classes"] < cfg["min_classes"]:
+            continue          # the property quantifies over training sets with >= 2 classes
         k = d.get("kind")
         if k not in rel:
             continue
